@@ -184,7 +184,7 @@ func c03Classes(f fieldCase3, cl map[string]int64) (nontrivial bool) {
 func TestC03(t *testing.T) {
 	c := begin(t, "C03")
 	defer c.end()
-	c.rec.F.Rule = "layer1 (complete): 2 versions x 64 (CR,IR,AR) x 27 (MC,MI,MA) x 2 (MS) x 48 (MAV,MAC,MPR,MUI) x 100 (E,RL,RC) = 33,177,600 objects with every Modified metric defined and every base metric set to a *different* value, built by assigning exported fields; layer2: the version x base x environmental product (11,466,178,560 points; quick: 16,000,000 points chosen by a seeded pseudo-random bijection (Feistel network) of the index space, distinct by construction; thorough: complete), temporal metrics chosen by a hash of the index; layer3: rapid well-formed environmental vectors through Decode (random order, omission, explicit X); layer4: for every version x base combination, the vector whose eight Modified metrics are written out equal to the base metrics, and its variants with exactly one Modified metric changed or one requirement raised, through Decode (quick: a quarter of the variants). Non-trivial: layer1 all with modified impact > 0; layer2 at least one Modified metric X (falls back to the base value) and at least one defined; layer3 at least one environmental metric defined."
+	c.rec.F.Rule = "layer1 (complete): 2 versions x 64 (CR,IR,AR) x 27 (MC,MI,MA) x 2 (MS) x 48 (MAV,MAC,MPR,MUI) x 100 (E,RL,RC) = 33,177,600 objects with every Modified metric defined and every base metric set to a *different* value, built by assigning exported fields; layer2: the version x base x environmental product (11,466,178,560 points; quick: 16,000,000 points chosen by a seeded pseudo-random bijection (Feistel network) of the index space, distinct by construction; thorough: complete), temporal metrics chosen by a hash of the index; layer3: rapid well-formed environmental vectors through Decode (random order, omission, explicit X); layer4: for every version x base combination, the vector whose eight Modified metrics are written out equal to the base metrics, and its variants with exactly one Modified metric changed or one requirement raised, through Decode (quick: a quarter of the variants). layer5: on one object, for every pair of the 23 fields, every pair of start values and every pair of end values in three contexts: assign, score, re-assign exactly those two fields, score again. Non-trivial: layer1 all with modified impact > 0; layer2 at least one Modified metric X (falls back to the base value) and at least one defined; layer3 at least one environmental metric defined."
 	c.rec.F.Assumptions = []string{"reference model: exact rational MISS with 0.915 cap, version-specific changed-scope polynomial, exact exploitability with PR weights by effective scope, double Roundup (harness/spec)", "objects built from the exported constructor plus exported-field assignment, as property C03 allows"}
 
 	// ---- layer 1 ---------------------------------------------------------------------
@@ -380,6 +380,70 @@ func TestC03(t *testing.T) {
 			}
 		})
 		c.rec.Bulk("layer4-restating-vectors-decoded", evals, nt, map[string]int64{"layer4:restating-or-one-off": evals})
+	}
+
+	// ---- layer 5: two-field transitions on one object -------------------------------------
+	// For every pair of the 23 fields (version, 8 base, 3 temporal, 11 environmental), every
+	// pair of start values and every pair of end values, in three contexts: assign, score,
+	// re-assign exactly those two fields, score again. A memo keyed by a lossy digest of the
+	// fields can only go stale on a transition its digest does not see; single-field changes
+	// and full re-assignments (layers 1-2) do not produce those.
+	{
+		var evals int64
+		nviol := 0
+		dims := []int{2, 4, 2, 3, 2, 2, 3, 3, 3}
+		for _, m := range spec.V3T() {
+			dims = append(dims, len(m.Codes))
+		}
+		for _, m := range spec.V3E() {
+			dims = append(dims, len(m.Codes))
+		}
+		get := func(f *fieldCase3, i int) *int {
+			switch {
+			case i == 0:
+				return &f.Ver
+			case i <= 8:
+				return &f.B[i-1]
+			case i <= 11:
+				return &f.T[i-9]
+			}
+			return &f.E[i-12]
+		}
+		contexts := []fieldCase3{
+			{Ver: 1, B: [8]int{0, 0, 0, 0, 1, 0, 0, 0}, T: [3]int{0, 0, 0}, E: [11]int{0, 0, 0, 0, 0, 0, 0, 0, 0, 0, 0}},
+			{Ver: 0, B: [8]int{2, 1, 1, 1, 0, 1, 0, 1}, T: [3]int{3, 2, 2}, E: [11]int{1, 3, 2, 2, 1, 3, 1, 2, 2, 3, 1}},
+			{Ver: 1, B: [8]int{1, 0, 2, 0, 1, 0, 1, 1}, T: [3]int{2, 4, 3}, E: [11]int{3, 1, 1, 0, 2, 0, 2, 1, 0, 1, 3}},
+		}
+		k := 0
+		for ci, ctx0 := range contexts {
+			for i := 0; i < len(dims) && nviol == 0; i++ {
+				for j := i + 1; j < len(dims) && nviol == 0; j++ {
+					k++
+					if !mine(k) {
+						continue
+					}
+					for a1 := 0; a1 < dims[i]; a1++ {
+						for a2 := 0; a2 < dims[j]; a2++ {
+							prev := ctx0
+							*get(&prev, i), *get(&prev, j) = a1, a2
+							for b1 := 0; b1 < dims[i]; b1++ {
+								for b2 := 0; b2 < dims[j]; b2++ {
+									if (a1 == b1 && a2 == b2) || nviol > 0 {
+										continue
+									}
+									cur := prev
+									*get(&cur, i), *get(&cur, j) = b1, b2
+									evals++
+									evalEnum(c, "fields-reused", reusedCase3{Prev: prev, Cur: cur}, checkC03Reused, &nviol)
+								}
+							}
+						}
+					}
+				}
+			}
+			_ = ci
+		}
+		c.rec.Bulk("layer5-two-field-transitions", evals, evals, map[string]int64{"layer5:two-field-transition": evals})
 	}
 
 	// ---- layer 3 ---------------------------------------------------------------------
